@@ -7,6 +7,9 @@ package main
 import (
 	"fmt"
 
+	"bytes"
+	"sort"
+
 	"github.com/nspcc-dev/neo-go/pkg/config"
 	"github.com/nspcc-dev/neo-go/pkg/core/mpt"
 	"github.com/nspcc-dev/neo-go/pkg/core/stateroot"
@@ -72,20 +75,34 @@ func toBatch(cs []change) mpt.Batch {
 // ---- bare trie ------------------------------------------------------------------------------
 
 type trieM struct {
-	mode mpt.TrieMode
-	ps   *storage.MemoryStore
-	ms   *storage.MemCachedStore
-	tr   *mpt.Trie
-	gc   *stateroot.Module
+	mode    mpt.TrieMode
+	ps      storage.Store
+	ms      *storage.MemCachedStore
+	tr      *mpt.Trie
+	gc      *stateroot.Module
+	cleanup func()
 }
 
-func newTrieM(m string) *trieM {
-	t := &trieM{mode: trieMode(m), ps: storage.NewMemoryStore()}
+func newTrieM(m string) *trieM { return newTrieMOn(m, "mem") }
+
+func newTrieMOn(m, lower string) *trieM {
+	t := &trieM{mode: trieMode(m)}
+	t.ps, _, t.cleanup = newLower(lower)
 	t.ms = storage.NewMemCachedStore(t.ps)
 	t.tr = mpt.NewTrie(nil, t.mode, t.ms)
 	t.gc = stateroot.NewModule(modeCfg(m), nil, zap.NewNop(), t.ms)
 	return t
 }
+
+// newTrieMFrom continues on an existing store from a root hash (after a state-sync restore).
+func newTrieMFrom(m string, ps storage.Store, ms *storage.MemCachedStore, root util.Uint256) *trieM {
+	t := &trieM{mode: trieMode(m), ps: ps, ms: ms, cleanup: func() {}}
+	t.tr = mpt.NewTrie(mpt.NewHashNode(root), t.mode, t.ms)
+	t.gc = stateroot.NewModule(modeCfg(m), nil, zap.NewNop(), t.ms)
+	return t
+}
+
+func (t *trieM) Close() { t.cleanup() }
 
 func (t *trieM) Name() string  { return "trie" }
 func (t *trieM) CanDrop() bool { return false }
@@ -153,7 +170,10 @@ func (t *trieM) Find(root util.Uint256, prefix []byte) ([]storage.KeyValue, erro
 
 type modM struct {
 	m        string
-	ps       *storage.MemoryStore
+	ps       storage.Store
+	copies   bool // the persistent layer hands out copies (no slice aliasing with what was put)
+	leak     string
+	cleanup  func()
 	ms       *storage.MemCachedStore
 	mod      *stateroot.Module
 	height   uint32
@@ -161,8 +181,13 @@ type modM struct {
 	inMemory bool // no restart since the start of the case: every node of the live trie is a Go object
 }
 
-func newModM(m string) *modM {
-	x := &modM{m: m, ps: storage.NewMemoryStore(), inMemory: true}
+func newModM(m string) *modM { return newModMOn(m, "mem") }
+
+func (x *modM) Close() { x.cleanup() }
+
+func newModMOn(m, lower string) *modM {
+	x := &modM{m: m, inMemory: true}
+	x.ps, x.copies, x.cleanup = newLower(lower)
 	x.ms = storage.NewMemCachedStore(x.ps)
 	x.mod = stateroot.NewModule(modeCfg(m), nil, zap.NewNop(), x.ms)
 	if err := x.mod.Init(0); err != nil {
@@ -183,8 +208,19 @@ func (x *modM) Block(idx uint32, ops []subop, commit bool) (root util.Uint256, o
 	if len(ops) != 1 || ops[0].kind != 'b' {
 		panic(fmt.Sprintf("module machine takes exactly one batch per block, got %d ops", len(ops)))
 	}
+	if x.copies {
+		// everything below the block's cache sits in the copying layer: nothing the block does
+		// before it is committed can reach it through a shared slice
+		if _, err := x.ms.PersistSync(); err != nil {
+			panic(err)
+		}
+	}
+	before := readRaw(x.ms)
 	cache := storage.NewPrivateMemCachedStore(x.ms)
 	tr, sr, err := x.mod.AddMPTBatch(idx, toBatch(ops[0].batch), cache)
+	// AddMPTBatch must write into the block's cache only: the module's own store is untouched
+	// until the block is committed
+	x.leak = diffRaw(before, readRaw(x.ms), x.copies)
 	if err != nil {
 		return root, "err"
 	}
@@ -226,4 +262,44 @@ func (x *modM) Get(root util.Uint256, key []byte) ([]byte, error) { return x.mod
 
 func (x *modM) Find(root util.Uint256, prefix []byte) ([]storage.KeyValue, error) {
 	return x.mod.FindStates(root, prefix, nil, 10000)
+}
+
+// readRaw dumps every key of the store (all prefixes), merged view.
+func readRaw(s *storage.MemCachedStore) map[string][]byte {
+	m := map[string][]byte{}
+	for _, p := range []storage.KeyPrefix{storage.DataMPT, storage.DataMPTAux} {
+		s.Seek(storage.SeekRange{Prefix: []byte{byte(p)}}, func(k, v []byte) bool {
+			m[string(k)] = bytes.Clone(v)
+			return true
+		})
+	}
+	return m
+}
+
+// diffRaw describes the first difference between two dumps ("" = none). With exact=false only
+// the key sets are compared (values may have been touched through shared slices).
+func diffRaw(a, b map[string][]byte, exact bool) string {
+	var ks []string
+	for k := range a {
+		ks = append(ks, k)
+	}
+	for k := range b {
+		if _, ok := a[k]; !ok {
+			ks = append(ks, k)
+		}
+	}
+	sort.Strings(ks)
+	for _, k := range ks {
+		av, aok := a[k]
+		bv, bok := b[k]
+		switch {
+		case aok && !bok:
+			return fmt.Sprintf("key %x removed", k)
+		case !aok && bok:
+			return fmt.Sprintf("key %x added", k)
+		case exact && !bytes.Equal(av, bv):
+			return fmt.Sprintf("key %x changed from %x to %x", k, av, bv)
+		}
+	}
+	return ""
 }
